@@ -359,6 +359,9 @@ Definition q_violates (fx : bool) (q : qstate) (o : qobs) : list bool :=
     negb (returned_listed e st (qo_returned o));
     negb (totals_ok (qo_stats o));
     negb (m_int_at_done (c_m c)) && negb (all_or_none e st);
+    (* an uncancelled query that is over left no job behind in a channel *)
+    m_finished (c_m c) && negb (m_int_at_done (c_m c)) &&
+      negb (forallb (fun en => st_eqb (snd en) ETaken) (q_fjobs q) && forallb (fun en => st_eqb (snd en) ETaken) (q_bjobs q));
     clean_completion q && negb (full_rows e st);
     (* C02 delivery: on clean completion exactly the matched rows of the scanned blocks *)
     clean_completion q && negb (list_eqb Z.eqb (sort_Z (qo_returned o)) (sort_Z (survived_rows q)));
